@@ -113,6 +113,7 @@ var (
 	sTicks                                 uint64 // statements of the instrumented module reached so far (any goroutine)
 	sClkRate, sClkRng, sClkLeft, sClkJumps uint64
 	sClkStart                              int64
+	sPoolRate, sPoolRng, sPoolFaults       uint64
 	sMainG                                 uintptr // the goroutine that runs the sequential phases (reference passes, canary)
 	sStallBase                             [maxTasks]int32
 	siteHot                                []bool
@@ -303,6 +304,25 @@ func clkRnd() uint64 {
 	z = (z ^ (z >> 30)) * 0xbf58476d1ce4e5b9
 	z = (z ^ (z >> 27)) * 0x94d049bb133111eb
 	return z ^ (z >> 31)
+}
+
+// poolFaultHook is the seeded coin behind the pool-miss fault (tasks only; a generator of its own, so that the
+// decisions are a function of the run seed and the number of pool operations so far).
+//
+//go:norace
+func poolFaultHook() bool {
+	if sPoolRate == 0 || !isTaskHook() {
+		return false
+	}
+	sPoolRng += 0x9e3779b97f4a7c15
+	z := sPoolRng
+	z = (z ^ (z >> 30)) * 0xbf58476d1ce4e5b9
+	z = (z ^ (z >> 27)) * 0x94d049bb133111eb
+	if (z^(z>>31))%sPoolRate == 0 {
+		sPoolFaults++
+		return true
+	}
+	return false
 }
 
 // isTaskHook reports whether the caller is the simulated task that holds the token.
@@ -790,6 +810,7 @@ func schedReset(n int, c *SchedConfig) {
 	sDeadlock = false
 	sGCRate = c.GCRate
 	sGCFired = 0
+	sPoolRate, sPoolRng, sPoolFaults = uint64(c.PoolRate), c.Seed^0x9001, 0
 	sClkRate, sClkRng, sClkJumps = uint64(c.ClockRate), c.Seed^0xC10C, 0
 	sClkStart = hook.ClockOffset
 	if sClkRate > 0 {
